@@ -318,16 +318,30 @@ def check_bpch_pads(ctx):
     def between(lay, a, c):
         names = [f.name for f in lay]
         return DT.nbytes(lay[names.index(a) + 1:names.index(c)])
+    # every store of a record marker, by access path with local aliases resolved (paths.stores_by_path): the markers of one
+    # header object, however the object is named and whether the two are stored in one statement or two
+    from .. import paths as _paths
+    table = _paths.stores_by_path(fn)
     for lay, hdrtxt, a, c in ((gh, "general_header", 'SPAD1', 'EPAD1'), (gh, "general_header", 'SPAD2', 'EPAD2'),
                               (dh, "tdv['header']", 'SPAD1', 'EPAD1'), (dh, "tdv['header']", 'SPAD2', 'EPAD2')):
         want = between(lay, a, c).constval()
-        pat = "%s['%s'] = %s['%s'] = %d" % (hdrtxt, a, hdrtxt, c, want)
-        if pat in t:
-            ctx.ok('R-DTYPEPADS', 'bpch:%s.%s' % (hdrtxt, a), where, pat)
+        isblock = hdrtxt != 'general_header'
+        opens = dict((k[:-len("['%s']" % a)], v) for k, v in table.items() if k.endswith("['%s']" % a) and (k[:-len("['%s']" % a)].endswith("['header']") == isblock)
+                     and (isblock or 'header' in k))
+        closes = dict((k[:-len("['%s']" % c)], v) for k, v in table.items() if k.endswith("['%s']" % c))
+        good = bad = None
+        for pre, vals in opens.items():
+            cv = closes.get(pre)
+            ov = set(v for v, st_ in vals)
+            if cv is not None and ov == set(v for v, st_ in cv) == set([str(want)]):
+                good = pre
+            else:
+                bad = (pre, sorted(ov), sorted(set(v for v, st_ in cv)) if cv else None, vals[0][1])
+        if good is not None and bad is None:
+            ctx.ok('R-DTYPEPADS', 'bpch:%s.%s' % (hdrtxt, a), where, "%s['%s'] = %s['%s'] = %d" % (good, a, good, c, want))
         else:
-            m2 = re.search(re.escape("%s['%s'] = %s['%s'] = " % (hdrtxt, a, hdrtxt, c)) + r'(\d+)', t)
-            ctx.violation(Finding('R-DTYPEPADS', rp, 'ncf2bpch', fn.body[0], 'bpch %s pads %s/%s must both be %d (bytes of the bracketed fields); found %s'
-                                  % (hdrtxt, a, c, want, m2.group(1) if m2 else 'no paired store')), oid='bpch:%s.%s' % (hdrtxt, a))
+            ctx.violation(Finding('R-DTYPEPADS', rp, 'ncf2bpch', bad[3] if bad else fn.body[0], 'bpch %s pads %s/%s must both be %d (bytes of the bracketed fields); found %s'
+                                  % (hdrtxt, a, c, want, ('%s / %s' % (bad[1], bad[2])) if bad else 'no paired store')), oid='bpch:%s.%s' % (hdrtxt, a))
     if "tdv['SPAD1'] = tdv['EPAD1'] = np.prod(vals.shape) * 4" in t and "'%s>f' % str(tuple(var[0].shape))" in t:
         ctx.ok('R-DTYPEPADS', 'bpch:data record', where, 'pads = prod(vals.shape) * 4 for a float32 field of shape var[0].shape')
     else:
